@@ -106,6 +106,7 @@ class Shadow:
         self.ftasks = {}    # name -> dict(deps, target(ckey), weights, const)
         self.knobs = {}     # name -> dict(source(path), weights, targets(ckeys), prev)
         self.order = []     # knob names in registration order
+        self.zero_divisions = 0
         self.stale = False  # set once a definition was registered without being evaluated (load)
 
     def clone(self):
@@ -116,6 +117,7 @@ class Shadow:
         other.knobs = {k: dict(v) for k, v in self.knobs.items()}
         other.order = list(self.order)
         other.stale = self.stale
+        other.zero_divisions = self.zero_divisions
         return other
 
     # -- locations ------------------------------------------------------------
@@ -234,6 +236,7 @@ class Shadow:
                 return guarded_bin(term[1], a, b)
             except ZeroDivisionError:
                 if term[1] in P.ZERO_DIV_NAN and P.is_deferred(term):
+                    self.zero_divisions += 1
                     return float("nan")
                 raise
         if k == "un":
